@@ -435,7 +435,11 @@ func genDB(r *rand.Rand, h *Hints) *DB {
 			if r.Intn(3) != 0 {
 				ts -= ts % 1000000
 			}
-			db.Samples = append(db.Samples, DBSample{Fp: s.Fp, Type: s.Type, TsNs: ts, Value: int64(r.Intn(100))})
+			tp := s.Type
+			if s.Type == 2 && r.Intn(6) == 0 { // a log stream with the same label set shares the fingerprint: its rows are of type 1
+				tp = 1
+			}
+			db.Samples = append(db.Samples, DBSample{Fp: s.Fp, Type: tp, TsNs: ts, Value: int64(r.Intn(100))})
 			days[ts/86400000000000] = true
 		}
 		if len(days) == 0 { // a series written before the window only
